@@ -14,7 +14,7 @@ TECHNIQUE = ('exhaustive enumeration of all angle histories up to depth 3/4 over
              '(two representatives per open interval between the finitely many gate values) against a reference automaton')
 RULE = ('boundary sets {[0,180,360],[0,160,360],[0,120,240,360]} x buffers {0,1,15,45,59.5,60,75,85,89,90,95,100,110,119,120,150,179} '
         'within range x all angle sequences of length 1..3 (T: ..4) over the region alphabet (2 representatives of every open '
-        'interval between consecutive critical values 0,B_i,B_i+-b,b,360-b,360, plus the hard boundaries themselves when they are not gates); the public wrappers phi/psi/chi/all_rotamers for every buffer width on (up to 1500) angle histories of length 1..3 per dihedral type, fed through a stub of the dihedral computation; transitions(): all 1-D sequences len<=5 over 3 '
+        'interval between consecutive critical values 0,B_i,B_i+-b,b,360-b,360, plus the hard boundaries themselves when they are not gates); the public wrappers phi/psi/chi/all_rotamers for every buffer width on (up to 1500) angle histories of length 1..3 per dihedral type, fed (as float32, as mdtraj returns them) through a stub of the dihedral computation, including the float32 neighbours of the psi shift point; transitions(): all 1-D sequences len<=5 over 3 '
         'states, all matrices up to 3x3 and 2x4 (T: 3x4) over {0,1,2}, long sequences in int8/uint8/int16 with transitions beyond the range of the dtype; state=(boundaries,buffer,angle sequence); non-trivial = '
         'sequence on which the hysteresis answer differs from plain binning')
 ASSUMPTIONS = ['angles equal to a gate value (B_i +- buffer mod 360) are excluded, as the property allows; hard boundaries are included when buffer > 0',
@@ -133,9 +133,21 @@ def check_wrappers(case, ctx):
         seqs_ = list(itertools.product(alpha, repeat=L))
         if len(seqs_) > 1500:
             seqs_ = seqs_[::len(seqs_) // 1500 + 1]
-        raw = (np.array(seqs_, dtype=float).T + shift) % 360.0          # (frames, dihedrals), as mdtraj would give them
+        raw = ((np.array(seqs_, dtype=float).T + shift) % 360.0).astype(np.float32)   # (frames, dihedrals); mdtraj angles are float32
+        if shift:
+            # float32 neighbours of the wrapper's internal shift point (raw angles a hair below / at / above it)
+            s32 = np.float32(shift)
+            edge = [np.nextafter(s32, np.float32(0)), s32, np.nextafter(s32, np.float32(360)), np.float32(shift - 1e-4)]
+            extra = np.array(list(itertools.product(edge, repeat=L)), dtype=np.float32).T
+            raw = np.concatenate([raw, extra], axis=1)
         cols[name] = raw
-        wants[name] = np.array([reference(list(sq), B, b) for sq in seqs_]).T
+        true = (raw.astype(float) - shift) % 360.0                     # the angle sequence in the shifted frame, exactly
+        gates = {float(b) % 360, (360.0 - b) % 360}
+        for x in B:
+            gates.update({(x - b) % 360.0, (x + b) % 360.0})
+        keepc = [j for j in range(true.shape[1]) if not any(abs(v - g) < 1e-9 for v in true[:, j] for g in gates)]
+        cols[name] = raw[:, keepc]
+        wants[name] = np.array([reference(true[:, j].tolist(), B, b) for j in keepc]).T.reshape(L, len(keepc))
     ctx.state(('wrappers', b, L), nontrivial=True)
     ctx.guard('public_wrappers')
 
